@@ -631,7 +631,7 @@ impl<'a> Ref<'a> {
                         })),
                     },
                     Concat => Ok(V::Concat(Box::new(a), Box::new(b))),
-                    Range | StartExRange | EndExRange | ExRange | TypeCast | Partial => skip("range/cast/partial"),
+                    Range | StartExRange | EndExRange | ExRange | TypeCast | Partial | CondTrue | CondFalse | Else => skip("range/cast/partial/generic-conditional"),
                     _ => {
                         let o = arith_op(op).unwrap();
                         match (v_to_num(&a), v_to_num(&b)) {
